@@ -104,7 +104,8 @@ fn main() {
             let mut o = env_obs("?", &n);
             let md_of = |r: &mut fastrand::Rng, t: &str| -> AMd {
                 let kind = match t {
-                    "G" => pick(r, &["none", "A", "B", "X"]),
+                    "G" => pick(r, &["none", "A", "B", "X", "AX"]),
+                    "L" => "A",
                     k => k,
                 };
                 if kind == "none" { no_md() } else { AMd { kind: kind.into(), v: pick(r, &mdv).into() } }
@@ -127,11 +128,11 @@ fn main() {
                 o = env_obs("foreign_garbage", &n);
             } else if w < 60 {
                 // a layer request with a full set of scripted decisions
-                let t = pick(&mut r, &["A", "B", "G"]).to_string();
+                let t = pick(&mut r, &["A", "B", "G", "L"]).to_string();
                 o.t = t.clone();
                 let dec = |r: &mut fastrand::Rng, ks: &[&str], with_md: bool| -> ADec {
                     let k = pick(r, ks);
-                    ADec { k: k.into(), c: if k == "Err" { "-".into() } else { pick(r, &causes).into() }, md: if with_md && k == "Replace" && t != "G" { AMd { kind: t.clone(), v: pick(r, &mdv).into() } } else { no_md() } }
+                    ADec { k: k.into(), c: if k == "Err" { "-".into() } else { pick(r, &causes).into() }, md: if with_md && k == "Replace" && t != "G" { AMd { kind: if t == "L" { "A".into() } else { t.clone() }, v: pick(r, &mdv).into() } } else { no_md() } }
                 };
                 let res = |r: &mut fastrand::Rng| -> ARes {
                     if r.u32(..8) == 0 {
